@@ -7,18 +7,21 @@ closed under the operations), C09 (JSON codec) and C10 (check_valid = the format
 
 Correspondence part `content` (class LinkPart, reusable from the plugins of C07 / C09 / C10): extensions are BUILT IN THE
 REAL LIBRARY (make_empty + filling the class dictionaries; get_subset / from_sequence results) and observed as
-  * `ext._content` rendered with its key ORDER,
-  * `to_json()` (text or exception class).
-Coq `Link.Corr.check`: `to_content` of the model extension equals the observed content (top-level key order and header
-fields exact, base dictionaries in order, class dictionaries as unordered maps), `Content.check_valid` of the observed
-content agrees with to_json, `Json.print` of the observed content IS the observed text and `Json.parse` of the text is the
-content, and `of_content` of the observed content is the model extension.
+  * the content dictionary (public accessor get_content()),
+  * `to_json()` (text, or that it raised).
+Coq `Link.Corr.check`: `to_content` of the model extension equals the observed content AS MAPS (same top-level members,
+header fields equal, same sub-dictionaries, class dictionaries equal as maps -- the ORDER in which make_empty fills the
+dictionaries is stated by no property and is not compared), `Content.check_valid` accepts the observed content iff to_json
+succeeded, `Json.parse` of the text is the content (a round trip keeps the order there is: C09; the text layout is not
+compared), and `of_content` of the observed content is the model extension.
 
 The ORACLE is a restatement of the documented format on the implementation alone (independent of the Coq model):
 every extension the library builds can be serialised, reloads (json.loads / from_json / from_runtime_repr) to an equal
-content, and holds exactly: the base dictionaries of its dimensionality, then dcmmeta_shape (list of ints = shape),
+content, and holds exactly (as a map): the base dictionaries of its dimensionality, dcmmeta_shape (list of ints = shape),
 dcmmeta_affine (4x4 floats), dcmmeta_reorient_transform, dcmmeta_slice_dim, dcmmeta_version, and each key in the
-dictionary of its class (a constant bare, anything else as the list of its values)."""
+dictionary of its class (a constant bare, anything else as the list of its values).  Expected values come from the CASE
+(make/empty kinds: the extension the generator meant; subset/merge kinds: header and lookups from the inputs through the
+dense reference semantics of props/extlib.py); every clause is evaluated, the signature is the clause id."""
 import os, copy, json
 from collections import OrderedDict
 
@@ -36,8 +39,9 @@ TABLES = ['t_content', 't_classes', 't_ext_tol', 't_cli']
 RULE = ('content: valid nondegenerate extensions of every dimensionality incl. (X,Y,Z,1), (X,Y,Z,1,V), (X,Y,Z,T,1), every '
         'slice dim (None,0,1,2), 0-5 keys in random classes (canonical or widened), values of every JSON kind, non-ASCII keys; '
         'built by make_empty + filling the class dictionaries (kinds make/*, empty/*), or taken from the results of the real '
-        'get_subset / DcmMetaExtension.from_sequence on such inputs (kinds subset/*, merge/*); observed: _content with key '
-        'order, to_json text. non-trivial = a key in a class of multiplicity > 1 or a singleton time/vector axis')
+        'get_subset / DcmMetaExtension.from_sequence on such inputs (kinds subset/*, merge/*); observed: the content dictionary '
+        '(compared as a map), to_json text (parsed). non-trivial = a key in a class of multiplicity > 1 or a singleton '
+        'time/vector axis')
 TRUSTED_BASE = [
     'props/extlib.py build_ext / ext_to_json (how the JSON form of an extension is put into / read from the real object)',
     'float tokens: the affine is passed to Coq as exact rationals and rendered there by Link.Abs.qtok_dec (exact decimal '
@@ -50,8 +54,14 @@ ASSUMPTIONS = [
     'dcmmeta_reorient_transform is None in everything generated (the Ext model does not track it): to_content renders null',
     'a varying class of multiplicity one is rendered as a 1-list; such entries are outside `nondegenerate`, never generated, '
     'and when an operation produces one (bare value) the case falls back to observing the operation\'s input',
-    'class dictionaries are compared as unordered maps (the key order inside a class dictionary after merge/split is not modelled); '
-    'the order of the top-level keys and of the sub-dictionaries is compared exactly',
+    'all dictionaries of the content (top level, base dictionaries, class dictionaries) are compared as maps: no property states the '
+    'order in which the library fills them (to_content has make_empty\'s order, its theorems do not depend on it); what IS compared '
+    'with order is the round trip (json.loads / from_json of the text against the content: C09 "same key order") and '
+    're-serialisation (byte-identical: C09); the exception class of a refused to_json is not compared (refused / accepted only)',
+    'subset / merge kinds: the extension given to the Coq model is the harness abstraction of the result (extlib.ext_to_json); a '
+    'separate oracle clause (result-vs-inputs) checks that abstraction against the inputs of the case (header from the case, every '
+    'lookup through the dense reference semantics); messages that are the open finding N13 (row-vs-direction, reported under '
+    'C03/C08) are left to those properties',
     'theorems that go from check_valid to Ext.Spec.valid carry the provisos positive extents / nondegenerate / storable / tight '
     'base dictionaries; each is shown necessary by a refutation witness (the blind spots of check_valid, open finding N14)',
     'JSON reload of an extension is proved for JSON-well-formed keys and values (Json.wf: scalar code points, float tokens of the '
@@ -80,6 +90,20 @@ def _plain(o):
     if isinstance(o, dict):
         return OrderedDict((k, _plain(v)) for k, v in o.items())
     return o
+
+
+def content_of(ext):
+    """The content dictionary through the public accessor; the private attribute only as a fallback."""
+    get = getattr(ext, 'get_content', None)
+    if callable(get):
+        c = get()
+        if isinstance(c, dict):
+            return c
+    for name in ('_content', '_object'):
+        c = getattr(ext, name, None)
+        if isinstance(c, dict):
+            return c
+    raise RuntimeError('harness/no-content-accessor')
 
 
 def same(a, b):
@@ -203,7 +227,7 @@ class LinkPart:
             # a bare value / 1-list in a varying class of multiplicity one: outside the domain of the Ext model
             E = case['ext'] if 'ext' in case else case['exts'][0]
             ext, src = X.build_ext(E), 'input-fallback:degenerate'
-        obs = {'src': src, 'E': E, 'content': _plain(ext._content), 'abs': None}
+        obs = {'src': src, 'E': E, 'content': _plain(content_of(ext)), 'abs': None}
         try:
             obs['abs'] = X.ext_to_json(ext)
         except Exception as e:          # noqa: BLE001
@@ -212,7 +236,7 @@ class LinkPart:
             text = ext.to_json()
             obs['json'] = {'ok': text}
         except Exception as e:          # noqa: BLE001
-            obs['json'] = {'err': ERRMAP.get(type(e).__name__, 'ECrash'), 'exc': type(e).__name__, 'msg': str(e)[:200]}
+            obs['json'] = {'err': 'EInvalidExt', 'exc': type(e).__name__, 'msg': str(e)[:200]}
             return obs
         rl = {}
         try:
@@ -221,13 +245,13 @@ class LinkPart:
             rl['loads'] = 'exc:' + type(e).__name__
         try:
             back = dcmmeta.DcmMetaExtension.from_json(text)
-            rl['from_json'] = same(_plain(back._content), obs['content'])
+            rl['from_json'] = same(_plain(content_of(back)), obs['content'])
             rl['again'] = back.to_json() == text
         except Exception as e:          # noqa: BLE001
             rl['from_json'] = 'exc:' + type(e).__name__
         try:
-            back2 = dcmmeta.DcmMetaExtension.from_runtime_repr(copy.deepcopy(ext._content))
-            rl['runtime'] = same(_plain(back2._content), obs['content'])
+            back2 = dcmmeta.DcmMetaExtension.from_runtime_repr(copy.deepcopy(content_of(ext)))
+            rl['runtime'] = same(_plain(content_of(back2)), obs['content'])
         except Exception as e:          # noqa: BLE001
             rl['runtime'] = 'exc:' + type(e).__name__
         obs['reload'] = rl
@@ -243,56 +267,85 @@ class LinkPart:
 
     # ---------------------------------------------------------------- oracle (implementation only)
     @staticmethod
-    def oracle(case, obs):
+    def clauses(case, obs):
+        """All failing clauses as (clause id, text).  Expected values come from the CASE."""
         if 'crash' in obs:
-            return 'the harness could not build the extension: %s %s' % (obs.get('crash'), obs.get('msg', '')[:200])
-        E, c = obs['E'], obs['content']
+            return [('harness-crash/' + str(obs.get('crash')), 'the extension could not be built / observed: %s' % obs.get('msg', '')[:200])]
+        out = []
+        op = case['kind'].split('/')[0]
+        src = obs.get('src', '')
+        c = obs['content']
         j = obs['json']
+        # what the generator meant: the case's own extension for make / empty kinds and for fall-backs
+        if src in ('subset', 'merge'):
+            E = obs['E']
+            if src == 'subset':
+                msgs = X.oracle_subset_all({'ext': case['ext'], 'dim': case['dim'], 'idx': case['idx']}, {'ext': E})
+            else:
+                msgs = X.oracle_merge_all(case, {'ext': E})
+            msgs = [m for m in msgs if not X.n13_tagged(m)]
+            if msgs:
+                out.append(('result-vs-inputs', 'the result of the operation, read back, is not what its inputs give: ' + msgs[0]))
+        else:
+            E = case['ext'] if 'ext' in case else case['exts'][0]
+            if obs.get('abs') != E:
+                out.append(('built-vs-meant', 'the extension built in the library does not read back as the one the generator meant: %r'
+                            % (obs.get('abs'),)))
         if 'err' in j:
-            return 'an extension the library built cannot be serialised: to_json raised %s (%s)' % (j.get('exc'), j.get('msg'))
+            out.insert(0, ('not-serialisable', 'an extension the library built cannot be serialised: to_json raised %s (%s)'
+                           % (j.get('exc'), j.get('msg'))))
         if not isinstance(c, dict):
-            return 'content is not a dictionary'
-        want_top = expected_bases(E['shape']) + TOP_TAIL
-        if list(c.keys()) != want_top:
-            return 'top-level keys %r, expected %r' % (list(c.keys()), want_top)
-        sh = c['dcmmeta_shape']
+            out.append(('content-not-dict', 'content is %r' % (type(c).__name__,)))
+            return out
+        want_top = set(expected_bases(E['shape']) + TOP_TAIL)
+        if set(c.keys()) != want_top:
+            out.append(('top-level-members', 'top-level members %r, expected %r' % (sorted(c.keys()), sorted(want_top))))
+        sh = c.get('dcmmeta_shape')
         if not (isinstance(sh, list) and all(isinstance(x, int) and not isinstance(x, bool) for x in sh) and sh == E['shape']):
-            return 'dcmmeta_shape is %r, expected the list %r' % (sh, E['shape'])
-        if c['dcmmeta_slice_dim'] != E['sdim'] or isinstance(c['dcmmeta_slice_dim'], bool):
-            return 'dcmmeta_slice_dim is %r, expected %r' % (c['dcmmeta_slice_dim'], E['sdim'])
-        a = c['dcmmeta_affine']
+            out.append(('shape', 'dcmmeta_shape is %r, expected the list %r' % (sh, E['shape'])))
+        sd = c.get('dcmmeta_slice_dim', 'absent')
+        if sd != E['sdim'] or isinstance(sd, bool):
+            out.append(('slice-dim', 'dcmmeta_slice_dim is %r, expected %r' % (sd, E['sdim'])))
+        a = c.get('dcmmeta_affine')
         if not (isinstance(a, list) and len(a) == 4 and all(isinstance(r, list) and len(r) == 4 and
-                                                             all(type(x) is float for x in r) for r in a)):
-            return 'dcmmeta_affine is not a 4x4 list of floats: %r' % (a,)
-        if a != [[float(x) for x in r] for r in E['aff']]:
-            return 'dcmmeta_affine %r differs from the affine %r' % (a, E['aff'])
-        if c['dcmmeta_reorient_transform'] is not None:
-            return 'dcmmeta_reorient_transform is %r' % (c['dcmmeta_reorient_transform'],)
-        if c['dcmmeta_version'] != 0.6:
-            return 'dcmmeta_version is %r' % (c['dcmmeta_version'],)
+                                                             all(isinstance(x, float) for x in r) for r in a)):
+            out.append(('affine-form', 'dcmmeta_affine is not a 4x4 list of floats: %r' % (a,)))
+        elif a != [[float(x) for x in r] for r in E['aff']]:
+            out.append(('affine-value', 'dcmmeta_affine %r differs from the affine %r' % (a, E['aff'])))
+        if c.get('dcmmeta_reorient_transform', 'absent') is not None:
+            out.append(('reorient', 'dcmmeta_reorient_transform is %r' % (c.get('dcmmeta_reorient_transform', 'absent'),)))
+        if c.get('dcmmeta_version') != 0.6:
+            out.append(('version', 'dcmmeta_version is %r' % (c.get('dcmmeta_version'),)))
         want = {}
         for k, cl, vs in E['entries']:
             want.setdefault(X.PYCLS[cl], {})[k] = vs[0] if cl == 'GConst' else list(vs)
         for base in expected_bases(E['shape']):
             subs = ['const', 'slices'] if base == 'global' else ['samples', 'slices']
-            if not isinstance(c[base], dict) or list(c[base].keys()) != subs:
-                return 'base dictionary %r has keys %r, expected %r' % (base, list(c[base].keys()) if isinstance(c[base], dict) else c[base], subs)
+            bd = c.get(base)
+            if not isinstance(bd, dict) or set(bd.keys()) != set(subs):
+                out.append(('base-dictionary', 'base dictionary %r has members %r, expected %r'
+                            % (base, sorted(bd.keys()) if isinstance(bd, dict) else bd, subs)))
+                continue
             for sub in subs:
-                d = c[base][sub]
+                d = bd[sub]
                 if not isinstance(d, dict) or not same_unordered(d, want.get((base, sub), {})):
-                    return 'class dictionary (%r,%r) holds %r, expected %r' % (base, sub, d, want.get((base, sub), {}))
-        if obs.get('abs') != E:
-            return 'the content does not read back as the extension it was built from: %r' % (obs.get('abs'),)
-        rl = obs.get('reload', {})
-        for what in ('loads', 'from_json', 'again', 'runtime'):
-            if rl.get(what) is not True:
-                return 'written and read back (%s): %r' % (what, rl.get(what))
-        return None
+                    out.append(('class-dictionary', 'class dictionary (%r,%r) holds %r, expected %r' % (base, sub, d, want.get((base, sub), {}))))
+        if 'ok' in j:
+            rl = obs.get('reload', {})
+            for what, cid in (('loads', 'reload-json-loads'), ('from_json', 'reload-from-json'), ('again', 'reserialise'),
+                              ('runtime', 'reload-runtime-repr')):
+                if rl.get(what) is not True:
+                    out.append((cid, 'written and read back (%s): %r' % (what, rl.get(what))))
+        return out
+
+    @staticmethod
+    def oracle(case, obs):
+        cl = LinkPart.clauses(case, obs)
+        return ('%s: %s' % cl[0]) if cl else None
 
     @staticmethod
     def signature(case, obs, msg):
-        m = (msg or '').split(':')[0].split(' is ')[0]
-        return 'link:' + '-'.join(m.split()[:4])
+        return 'link/' + (msg or '').split(':')[0]
 
     @staticmethod
     def nontrivial(case, obs):
